@@ -92,6 +92,10 @@ class DatabaseWithTenant(Database):
     def get_id(self) -> str:
         return f"' || quote_ident({self._get_id_expr()}) || '"
 
+    def get_id_in_literal(self) -> str:
+        # get_id() is already a fragment that closes and re-opens the string
+        return self.get_id()
+
     def _get_id_expr(self) -> str:
         return f'{V("edgedb")}.get_database_backend_name({ql(self.name)})'
 
@@ -99,6 +103,10 @@ class DatabaseWithTenant(Database):
 class CurrentDatabase(AbstractDatabase):
     def get_id(self) -> str:
         return f"' || quote_ident({self._get_id_expr()}) || '"
+
+    def get_id_in_literal(self) -> str:
+        # get_id() is already a fragment that closes and re-opens the string
+        return self.get_id()
 
     def _get_id_expr(self) -> str:
         return 'current_database()'
